@@ -288,7 +288,8 @@ OAUTH_SCHEME = {"name": "oauthy", "type": "oauth2", "in": "", "field": "", "flow
 
 
 def tricky_universe():
-    """Unexported / json:"-" / nameless-json fields, YAML-sensitive enum values, enum values that string
+    """Unexported / json:"-" / nameless-json fields, YAML-sensitive enum values, a string enum that declares
+    the empty string among other constants, a @Security annotation without scopes, enum values that string
     literals must escape, enum constants in a second file (both packages), multi-name declarations of mixed
     visibility, dive tags on collections of an enum, validator tags holding the word `required` without the
     rule, a context.Context parameter in front of path / query / header parameters and an oauth2 scheme with
@@ -311,6 +312,10 @@ def tricky_universe():
                                   ["StatusHeld", '"on-hold"', "on-hold"], ["StatusBack", '"refunded"', "refunded"]]},
                       {"pkg": "other", "name": "Prio", "kind": "enum", "base": "int", "split": 1,
                        "consts": [["PrioLow", "1", "1"], ["PrioHigh", "5", "5"], ["PrioUrgent", "9", "9"]]},
+                      # the usual "unset" member: a declared constant whose value is the empty string
+                      {"pkg": "types", "name": "Tier", "kind": "enum", "base": "string", "split": None,
+                       "consts": [["TierUnset", '""', ""], ["TierStandard", '"standard"', "standard"],
+                                  ["TierExpress", '"express"', "express"]]},
                       {"pkg": "types", "name": "Hidden", "kind": "struct", "fields": [fld("Z", P("int"))]},
                       {"pkg": "types", "name": "Dim", "kind": "struct", "fields": [fld("N", P("int"), "n")]},
                       {"pkg": "types", "name": "Unit", "kind": "alias", "assigned": False, "rhs": P("string")},
@@ -320,6 +325,7 @@ def tricky_universe():
                                   ["SepTab", '"\\t"', "\t"]]},
                       {"pkg": "types", "name": "Box", "kind": "struct", "fields": [
                           fld("Sep", N("types", "Sep"), "sep"),
+                          fld("Tier", N("types", "Tier"), "tier"),
                           # the word `required` as the parameter of another rule is not the rule
                           fld("Presence", P("string"), "presence", "omitempty,oneof=required optional forbidden"),
                           fld("Mode", P("string"), "mode", "eq=required"),
@@ -348,8 +354,97 @@ def tricky_universe():
                              "validate": None},
                             {"name": "mode", "loc": "header", "alias": None, "type": ["ptr", P("string")],
                              "validate": "oneof=required optional"}],
-                 "ret": P("string"), "err": None, "errors": [], "security": []}]}]}
+                 # @Security without the optional scopes property
+                 "ret": P("string"), "err": None, "errors": [], "security": [{"name": "sec1", "scopes": []}]}]}]}
 
+
+
+# ------------------------------------------------------------------ generations in ONE process
+
+SEQ_MOD = "verifproj/live"
+GENSEQ = "genseq (library entry point cmd.GenerateSpec, several generations in one process)"
+
+
+def later_revision(rng, u):
+    """A later revision of the project: one to three reachable types renamed or removed (with the fields that
+    used them).  Returns (universe, [names the later project no longer has]) or None."""
+    reach = sorted(k for k in T.py_reach(u) if k[0] != "ctl")
+    if not reach:
+        return None
+    v, gone = u, []
+    for key in rng.sample(reach, min(len(reach), rng.choice([1, 2, 2, 3]))):
+        if T.find_decl(v, *key) is None:
+            continue
+        w = T.remove_type(v, key) if rng.random() < 0.4 else None
+        if w is None:
+            w = T.rename_type(v, key, key[1] + "Rv")
+        v = w
+        gone.append(key[1])
+    return (v, gone) if gone else None
+
+
+def run_type_sequence(tag, seq, versions=T.VERSIONS):
+    """seq: [(label, universe)].  Every universe is rendered as a stage of ONE live directory (same module
+    path, same file names); all generations - for each step one per version, in order - run in ONE process
+    through cmd.GenerateSpec.  Returns per step {version: {"spec", "error", "panic"}}."""
+    import base64
+    import shutil
+    moddir = os.path.join(WORK, PROP, "seq_" + tag)
+    shutil.rmtree(moddir, ignore_errors=True)
+    T.P.make_module(moddir)
+    live = os.path.join(moddir, "live")
+    jobs, index = [], []
+    for i, (label, u) in enumerate(seq):
+        st = os.path.join(moddir, "stage%d" % i)
+        T.render_universe(u, st, SEQ_MOD)
+        for v in versions:
+            T.render_config(u, st, SEQ_MOD, v)
+        for v in versions:
+            jobs.append({"live": live, "stage": st, "config": "gleece-%s.json" % v, "mode": "spec",
+                         "outputs": ["dist/spec-%s.json" % v]})
+            index.append((i, v))
+    results = implrun("genseq", jobs, timeout=900)
+    out = [dict() for _ in seq]
+    for (i, v), r in zip(index, results):
+        data = (r.get("files_b64") or {}).get("dist/spec-%s.json" % v)
+        spec = None
+        if data is not None:
+            try:
+                spec = json.loads(base64.b64decode(data).decode(errors="replace"))
+            except ValueError:
+                spec = None
+        out[i][v] = {"spec": spec, "error": r.get("error") or "", "panic": r.get("panic") or "",
+                     "exit": 0 if not (r.get("error") or r.get("panic")) else 1,
+                     "out": (r.get("error") or "") + (r.get("panic") or ""), "unparsable": data is not None and spec is None}
+    shutil.rmtree(moddir, ignore_errors=True)
+    return out
+
+
+def build_sequences(rng, singles, obs, nseq):
+    """[(label, universe, fresh) ...] per sequence; fresh = index into singles of the same universe, or None
+    (the caller runs it through a fresh CLI process).  A sequence is: a project, a later revision of it
+    (types renamed / removed), an unrelated project, the first project again."""
+    cand = [i for i, (l, u) in enumerate(singles) if l in ("random", "tricky")
+            and obs[i]["3.0.0"]["spec"] is not None and len(T.py_reach(u)) >= 3]
+    rng.shuffle(cand)
+    # the tricky universe holds every declaration shape: always the base of the first sequence
+    cand.sort(key=lambda i: singles[i][0] != "tricky")
+    seqs = []
+    for n, i in enumerate(cand):
+        if len(seqs) >= nseq:
+            break
+        rev = later_revision(rng, singles[i][1])
+        if rev is None:
+            continue
+        others = [j for j in cand if j != i]
+        seq = [("project", singles[i][1], i, []),
+               ("later-revision:" + "+".join(rev[1]), rev[0], None, rev[1])]
+        if others:
+            j = others[n % len(others)]
+            seq.append(("unrelated-project", singles[j][1], j, [k[1] for k in T.py_reach(rev[0])]))
+        seq.append(("first-project-again", singles[i][1], i, []))
+        seqs.append(seq)
+    return seqs
 
 # ------------------------------------------------------------------ main
 
@@ -442,7 +537,7 @@ def main():
         k = 0
         while k < n:
             u = T.gen_universe(rng, {"tricky_enum_values": True, "literal_unsafe_enum_values": 0.25,
-                                     "custom_error": 0.08})
+                                     "custom_error": 0.08, "empty_enum_value": 0.2})
             if has_same_named(u):
                 continue
             singles.append(("random", u))
@@ -491,8 +586,40 @@ def main():
             origin[sar_base + j] = i
             universes.append(universes[i])
 
+    # ---- sequences of generations in ONE process (a project, a later revision without some of its types, an
+    # unrelated project, the first project again; each step for 3.0.0 and 3.1.0): every in-process document is a
+    # further observation of its universe - same oracle, same model - and is compared with the document a
+    # fresh process writes for the same universe
+    seq_of = {}           # index of an in-process observation -> (sequence, step)
+    seq_fresh = {}        # index of an in-process observation -> index of the fresh-process observation
+    seqs = []
+    if a.replay:
+        if rp.get("sequence"):
+            seqs = [[(st["label"], st["universe"], None, []) for st in rp["sequence"]]]
+    elif os.environ.get("VERIF_C07_SEQUENCES", "1") != "0":
+        seqs = build_sequences(rng, singles, obs, 3 if quick else 12)
+    if seqs:
+        import concurrent.futures
+        build_harness()
+        need = [(si, ti) for si, seq in enumerate(seqs) for ti, st in enumerate(seq) if st[2] is None]
+        fresh_base = len(universes)
+        obs += T.run_universes(PROP, [seqs[si][ti][1] for si, ti in need], tag="seqfresh")
+        fresh_idx = {}
+        for n2, (si, ti) in enumerate(need):
+            universes.append(seqs[si][ti][1])
+            fresh_idx[(si, ti)] = fresh_base + n2
+        with concurrent.futures.ThreadPoolExecutor(max_workers=4) as ex:
+            seq_obs = list(ex.map(lambda x: run_type_sequence("s%d" % x[0], [(st[0], st[1]) for st in x[1]]),
+                                  enumerate(seqs)))
+        for si, seq in enumerate(seqs):
+            for ti, st in enumerate(seq):
+                seq_of[len(universes)] = (si, ti)
+                seq_fresh[len(universes)] = st[2] if st[2] is not None else fresh_idx[(si, ti)]
+                universes.append(st[1])
+                obs.append(seq_obs[si][ti])
+
     def command_of(k):
-        return SAR if k in origin else "spec"
+        return SAR if k in origin else GENSEQ if k in seq_of else "spec"
 
     # ---- Coq evaluation: raw and neutralised documents
     cases, meta = [], []       # meta: (universe index, version, "raw"/"neutral", classes applied)
@@ -567,10 +694,55 @@ def main():
                      "input": universes[k],
                      "implementation_components": components_of(obs[k][v]["spec"]),
                      "failed_subclaims": ev["c07_fail"][i]})
+    def seq_case_fails(u, v, spec):
+        e = S.evaluate(PROP, [(v, u, neutralise(spec, v, u)[0])], "shrink")
+        return bool(e["c07_fail"]) or bool(e["unprojectable"])
+
+    def report_sequence(i, why):
+        """The failing generation with the shortest prefix of its sequence that still makes it fail."""
+        k, v, _, _ = meta[i]
+        si, ti = seq_of[k]
+        seq = [(st[0], st[1]) for st in seqs[si]]
+        u = seq[ti][1]
+        best, bad, vs_used = seq[:ti + 1], obs[k][v]["spec"], T.VERSIONS
+        if not a.replay:
+            found = False
+            for vs in ([v], T.VERSIONS):
+                for tj in range(ti - 1, -1, -1):
+                    o = run_type_sequence("shrink", [seq[tj], seq[ti]], versions=vs)[1][v]
+                    if o["spec"] is not None and seq_case_fails(u, v, o["spec"]):
+                        best, bad, vs_used, found = [seq[tj], seq[ti]], o["spec"], vs, True
+                        break
+                if found:
+                    break
+        fresh = components_of(obs[seq_fresh[k]][v]["spec"])
+        res.violation({"kind": "property-fails-on-implementation", "openapi": v, "command": GENSEQ, "input": u,
+                       "sequence": [{"step": n2, "label": l, "universe": x} for n2, (l, x) in enumerate(best)],
+                       "versions_generated_per_step": list(vs_used),
+                       "implementation_components": components_of(bad),
+                       "fresh_process_components": fresh,
+                       "components_only_in_the_in_process_document": sorted(set(components_of(bad)) - set(fresh)),
+                       "components_missing_in_the_in_process_document": sorted(set(fresh) - set(components_of(bad))),
+                       "why": why,
+                       "subclaims": "1 a reachable declaration has no / a wrong / several schemas, 2 two reachable "
+                                    "declarations share a name, 3 a schema without declaration, 4 Rfc7807Error missing",
+                       "claim": "prop_C07 is false on the document of the LAST step when the steps are generated one "
+                                "after the other in one process (input = the universe of that step); a fresh process "
+                                "writes fresh_process_components for it"})
+
     reported = 0
+    seq_reported = 0
+    fails_fresh = set((meta[i][0], meta[i][1]) for i, _ in unexplained if meta[i][0] not in seq_of)
     for i, why in unexplained:
+        if meta[i][0] in seq_of:
+            if (seq_fresh[meta[i][0]], meta[i][1]) in fails_fresh:
+                continue            # not a matter of the process: a fresh process writes a failing document too
+            if not seq_reported:
+                seq_reported += 1
+                report_sequence(i, why)
+            continue
         if reported >= 2:
-            break
+            continue
         reported += 1
         k, v, _, _ = meta[i]
         cmdk = command_of(k)
@@ -700,6 +872,42 @@ def main():
                            "claim": "a type's schema is a function of its declaration alone: `generate spec` and "
                                     "`generate spec-and-routes` write the same components.schemas for one project"})
 
+    # ---- a generation that follows others in its process writes what a fresh process writes
+    seq_stats = {"sequences": len(seqs), "generations_in_one_process": 0, "documents_written": 0,
+                 "compared_with_a_fresh_process": 0, "differences": 0, "outcome_differs": 0,
+                 "steps": sorted(set(st[0].split(":")[0] for seq in seqs for st in seq)),
+                 "type_names_gone_in_a_later_step": sum(len(st[3]) for seq in seqs for st in seq)}
+    for k in sorted(seq_of):
+        for ver in T.VERSIONS:
+            seq_stats["generations_in_one_process"] += 1
+            x, y = obs[k][ver]["spec"], obs[seq_fresh[k]][ver]["spec"]
+            seq_stats["documents_written"] += int(x is not None)
+            si, ti = seq_of[k]
+            if (x is None) != (y is None):
+                seq_stats["outcome_differs"] += 1
+            elif x is not None:
+                seq_stats["compared_with_a_fresh_process"] += 1
+                if components_of(x) == components_of(y):
+                    continue
+                seq_stats["differences"] += 1
+            else:
+                continue
+            if seq_reported:
+                continue
+            seq_reported += 1
+            names = sorted(n2 for n2 in set(components_of(x)) | set(components_of(y))
+                           if components_of(x).get(n2) != components_of(y).get(n2))
+            res.violation({"kind": "metamorphic-process-pair", "openapi": ver, "command": GENSEQ, "input": universes[k],
+                           "sequence": [{"step": n2, "label": st[0], "universe": st[1]}
+                                        for n2, st in enumerate(seqs[si][:ti + 1])],
+                           "changed_components": names,
+                           "in_process": {"error": obs[k][ver]["out"][-600:], "components": {n2: components_of(x).get(n2) for n2 in names}},
+                           "fresh_process": {"exit": obs[seq_fresh[k]][ver]["exit"],
+                                             "components": {n2: components_of(y).get(n2) for n2 in names}},
+                           "claim": "a type's schema is a function of its declaration alone: the document of the last "
+                                    "step, generated after the earlier steps in one process, has the components.schemas "
+                                    "a fresh process writes for the same project"})
+
     # ---- evidence
     raw = [i for i, m in enumerate(meta) if m[2] == "raw"]
     accepted = [i for i in raw if cases[i][2] is not None]
@@ -722,6 +930,11 @@ def main():
                 "`generate spec`); string enum values include texts a Go / JSON / YAML literal must escape (quote, "
                 "backslash, tab, control character), validate tags include the word `required` as the parameter of "
                 "another rule and the required_* family, methods may take a context.Context parameter at any position; "
+                "string enums may declare the empty string among other constants; sequences of generations in ONE process "
+                "(harness genseq, cmd.GenerateSpec: a project, a later revision in which reachable types are renamed or "
+                "removed, an unrelated project, the first project again - 3.0.0 and 3.1.0 at every step, all in one live "
+                "directory): same oracle and model on every in-process document, components compared with those a fresh "
+                "process writes for the same universe; "
                 "non-trivial = document written and it has a struct component; "
                 "distinct = distinct universes",
         "samples": [{"openapi": cases[i][0], "universe": cases[i][1],
@@ -740,7 +953,12 @@ def main():
                     len([i for i in ev["unique_quiet"] if meta[i][2] == "raw"]),
                 "well_linked (C08_wf_partial)": len([i for i in ev["well_linked"] if meta[i][2] == "raw"])},
             "metamorphic_pairs": pair_stats,
-            "spec_and_routes_observations": len(origin), "command_pairs": cmd_stats}),
+            "spec_and_routes_observations": len(origin), "command_pairs": cmd_stats,
+            "string_enums_with_an_empty_string_member": sum(
+                1 for u in universes[:nsingle] for d in u["decls"]
+                if d["kind"] == "enum" and d["base"] == "string" and len(d["consts"]) >= 2
+                and any(c[2] == "" for c in d["consts"]) and (d["pkg"], d["name"]) in T.py_reach(u)),
+            "one_process_sequences": seq_stats}),
     })
     res.assumptions += [
         "3.1.0: the values of a string enum are assumed to be text that YAML resolves to a string (letters, digits, "
